@@ -333,7 +333,10 @@ func (p *nriPlugin) StopPodSandbox(ctx context.Context, podSandbox *api.PodSandb
 	b := metrics.Block()
 	defer b.Done()
 
-	pod, _ := m.cache.LookupPod(podSandbox.GetId())
+	pod, ok := m.cache.LookupPod(podSandbox.GetId())
+	if !ok {
+		return nil
+	}
 	released := slices.Clone(pod.GetContainers())
 	m.agent.PurgePodResources(pod.GetNamespace(), pod.GetName())
 
@@ -369,7 +372,10 @@ func (p *nriPlugin) RemovePodSandbox(ctx context.Context, podSandbox *api.PodSan
 
 	m := p.resmgr
 
-	pod, _ := m.cache.LookupPod(podSandbox.GetId())
+	pod, ok := m.cache.LookupPod(podSandbox.GetId())
+	if !ok {
+		return nil
+	}
 	released := slices.Clone(pod.GetContainers())
 	m.agent.PurgePodResources(pod.GetNamespace(), pod.GetName())
 
